@@ -1871,3 +1871,207 @@ class StreamPremise:
                     facts.append(f"`{norm(c)}` in {nm} with {vs}" + ("; the connection becomes non-blocking" if bad else ""))
             ctx.ob(rule, f"{k.name} leaves the connection blocking (timeout is not 0, no setblocking(False) / settimeout(0))", okk,
                    "; ".join(facts) or f"{k.name} neither binds timeout nor calls setblocking / settimeout (the stdlib default is timeout = None)", k.fq, None, f"blocking connection of {k.name}")
+
+
+# ---------------------------------------------------------------------
+# one concrete run of the chunk-size reader on a sample line
+
+
+class _PyRaise(Exception):
+    """evaluating a sample raised a builtin exception (e.g. int() of a non-number: ValueError)."""
+
+    def __init__(self, name: str):
+        super().__init__(name)
+        self.name = name
+
+
+_ASCII_SAFE_CODECS = {"latin1", "latin-1", "iso-8859-1", "iso8859-1", "l1", "cp819", "ascii", "us-ascii", "utf-8", "utf8", "cp1252"}
+_EXC_BASES = {"ValueError": ("ValueError", "Exception", "BaseException"), "UnicodeDecodeError": ("UnicodeDecodeError", "UnicodeError", "ValueError", "Exception", "BaseException"),
+              "IndexError": ("IndexError", "LookupError", "Exception", "BaseException"), "TypeError": ("TypeError", "Exception", "BaseException")}
+
+
+class LineRun:
+    """Follow a method of the de-chunker statement by statement with `self.<under>.readline()` answered by ONE sample
+    line (bytes constant): assignments to locals, tests, returns and raises are executed on the sample's value - the
+    small total evaluator ``ev`` plus bytes.decode (ASCII-compatible codecs; the samples are ASCII), int(text[, base])
+    (a text int() refuses raises ValueError, which goes to the handler that covers it), split / partition / rstrip /
+    lstrip / strip / replace, indexing and slicing, and calls of other methods of the class / functions of the module
+    with known arguments (two levels).  ``fold``: module-level constants.  Result: ("return", value) | ("raise", name);
+    AnalysisError when a step is outside that subset (never a guess)."""
+
+    def __init__(self, under: str, methods: dict[str, ast.AST], functions: dict[str, ast.AST], fold: t.Callable[[ast.AST], t.Any] | None, cfg_of_node: t.Callable[[ast.AST], CFG]):
+        self.under, self.methods, self.functions, self.fold, self.cfg_of_node = under, methods, functions, fold, cfg_of_node
+
+    def run(self, fn: ast.AST, args: dict[str, t.Any], line: bytes, depth: int = 0, reads: list[int] | None = None) -> tuple[str, t.Any]:
+        cfg = self.cfg_of_node(fn)
+        env: dict[str, t.Any] = dict(args)
+        reads = reads if reads is not None else [0]
+        name = getattr(fn, "name", "?")
+
+        def bind(x: ast.AST) -> tuple[bool, t.Any]:
+            if isinstance(x, ast.Name):
+                if x.id in env:
+                    return True, env[x.id]
+                if x.id == "self":
+                    return False, None
+                if self.fold is not None:
+                    try:
+                        return True, self.fold(x)
+                    except Exception:
+                        return False, None
+                return False, None
+            if isinstance(x, ast.Attribute) and not is_self_attr(x) and self.fold is not None and dotted(x) is not None:
+                try:
+                    return True, self.fold(x)
+                except Exception:
+                    return False, None
+            if isinstance(x, ast.NamedExpr) and isinstance(x.target, ast.Name):
+                v = ev(x.value, bind)
+                env[x.target.id] = v
+                return True, v
+            if isinstance(x, ast.Subscript):
+                v = ev(x.value, bind)
+                try:
+                    if isinstance(x.slice, ast.Slice):
+                        lo, hi, st = (None if p is None else ev(p, bind) for p in (x.slice.lower, x.slice.upper, x.slice.step))
+                        return True, v[lo:hi:st]
+                    return True, v[ev(x.slice, bind)]
+                except IndexError:
+                    raise _PyRaise("IndexError")
+                except (TypeError, KeyError):
+                    raise Unknown(norm(x))
+            if not isinstance(x, ast.Call):
+                return False, None
+            f = x.func
+            if isinstance(f, ast.Attribute) and is_self_attr(f.value, self.under):
+                if f.attr == "readline" and not x.args and not x.keywords:
+                    reads[0] += 1
+                    return True, (line if reads[0] == 1 else b"")
+                raise Unknown(f"`{norm(x)}` on the underlying stream")
+            d = dotted(f)
+            if d == "int" and 1 <= len(x.args) <= 2 and all(k.arg == "base" for k in x.keywords) and "int" not in env:
+                a = [ev(p, bind) for p in x.args] + [ev(k.value, bind) for k in x.keywords]
+                if not isinstance(a[0], (str, bytes, int)) or (len(a) == 2 and not isinstance(a[1], int)):
+                    raise Unknown(norm(x))
+                try:
+                    return True, int(*a)
+                except ValueError:
+                    raise _PyRaise("ValueError")
+                except TypeError:
+                    raise Unknown(norm(x))
+            if isinstance(f, ast.Attribute) and is_self_attr(f) and f.attr in self.methods and depth < 2 and not x.keywords:
+                callee = self.methods[f.attr]
+                return True, self._call(callee, [ev(p, bind) for p in x.args], True, line, depth, reads)
+            if isinstance(f, ast.Name) and f.id in self.functions and f.id not in env and depth < 2 and not x.keywords:
+                return True, self._call(self.functions[f.id], [ev(p, bind) for p in x.args], False, line, depth, reads)
+            if isinstance(f, ast.Attribute) and not x.keywords:
+                meth = f.attr
+                if meth in ("decode", "encode") and len(x.args) <= 1:
+                    recv = ev(f.value, bind)
+                    enc = ev(x.args[0], bind) if x.args else "utf-8"
+                    if isinstance(recv, (bytes, str)) and isinstance(enc, str) and enc.lower().replace("_", "-") in _ASCII_SAFE_CODECS and all(c < 128 for c in (recv if isinstance(recv, bytes) else recv.encode("latin1", "replace"))):
+                        if meth == "decode" and isinstance(recv, bytes):
+                            return True, recv.decode("ascii")
+                        if meth == "encode" and isinstance(recv, str):
+                            return True, recv.encode("ascii")
+                    raise Unknown(norm(x))
+                if meth in ("split", "rsplit", "partition", "rpartition", "replace", "strip", "rstrip", "lstrip", "splitlines", "isdigit", "isalnum", "isspace", "find", "index", "count", "removesuffix", "removeprefix", "startswith", "endswith", "lower", "upper"):
+                    recv = ev(f.value, bind)
+                    a = [ev(p, bind) for p in x.args]
+                    if isinstance(recv, (str, bytes)) and all(isinstance(p, (type(recv), int, tuple)) or p is None for p in a):
+                        try:
+                            r = getattr(recv, meth)(*a)
+                        except ValueError:
+                            raise _PyRaise("ValueError")
+                        except TypeError:
+                            raise Unknown(norm(x))
+                        return True, (tuple(r) if isinstance(r, list) else r)
+                    raise Unknown(norm(x))
+            if d in ("bytes", "str") and len(x.args) == 2 and not x.keywords:
+                recv, enc = ev(x.args[0], bind), ev(x.args[1], bind)
+                if d == "str" and isinstance(recv, bytes) and isinstance(enc, str) and enc.lower().replace("_", "-") in _ASCII_SAFE_CODECS and all(c < 128 for c in recv):
+                    return True, recv.decode("ascii")
+                raise Unknown(norm(x))
+            return False, None
+
+        def covers(h: ast.ExceptHandler, exc: str) -> bool:
+            if h.type is None:
+                return True
+            names = {(dotted(e_) or "?").rsplit(".", 1)[-1] for e_ in (h.type.elts if isinstance(h.type, ast.Tuple) else [h.type])}
+            return bool(names & set(_EXC_BASES.get(exc, (exc, "Exception", "BaseException"))))
+
+        n: Node = cfg.entry
+        for _ in range(400):
+            if n is cfg.exit:
+                return ("return", None)
+            if n is cfg.raise_exit:
+                raise AnalysisError(f"{name}: the run on the sample line {line!r} leaves the function by an exception edge this rule does not follow")
+            a = n.ast
+            normal = [s for s, l in n.succs if l != "exc"]
+            try:
+                if n.kind in ("entry", "join") or (n.kind == "stmt" and isinstance(a, (ast.Pass, ast.Assert, ast.Global, ast.Nonlocal, ast.Import, ast.ImportFrom))):
+                    pass
+                elif n.kind == "handler" and isinstance(a, ast.ExceptHandler):
+                    if a.name:
+                        env[a.name] = None
+                elif n.kind == "test":
+                    c = bool(ev(a, bind))  # type: ignore[arg-type]
+                    nxt = [s for s, l in n.succs if l == ("T" if c else "F")]
+                    if len(nxt) != 1:
+                        raise AnalysisError(f"{name}: no single successor of the test `{n.text()[:60]}`")
+                    n = nxt[0]
+                    continue
+                elif n.kind == "stmt" and isinstance(a, ast.Return):
+                    return ("return", ev(a.value, bind) if a.value is not None else None)
+                elif n.kind == "stmt" and isinstance(a, ast.Raise):
+                    nm = None
+                    e_ = a.exc.func if isinstance(a.exc, ast.Call) else a.exc
+                    if e_ is not None:
+                        dd = dotted(e_)
+                        nm = dd.rsplit(".", 1)[-1] if dd else None
+                    return ("raise", nm or "?")
+                elif n.kind == "stmt" and isinstance(a, (ast.Assign, ast.AnnAssign)):
+                    if a.value is not None:
+                        v = ev(a.value, bind)
+                        for tg in a.targets if isinstance(a, ast.Assign) else [a.target]:
+                            if isinstance(tg, ast.Name):
+                                env[tg.id] = v
+                            elif isinstance(tg, (ast.Tuple, ast.List)) and all(isinstance(e_, ast.Name) for e_ in tg.elts) and isinstance(v, tuple) and len(v) == len(tg.elts):
+                                for e_, vi in zip(tg.elts, v):
+                                    env[e_.id] = vi  # type: ignore[attr-defined]
+                            elif is_self_attr(tg):
+                                env["self." + tg.attr] = v  # type: ignore[attr-defined]
+                            else:
+                                raise Unknown(f"store into `{norm(tg)}`")
+                elif n.kind == "stmt" and isinstance(a, ast.AugAssign) and isinstance(a.target, ast.Name):
+                    env[a.target.id] = ev(ast.BinOp(left=ast.Name(id=a.target.id, ctx=ast.Load()), op=a.op, right=a.value), bind)
+                elif n.kind == "stmt" and isinstance(a, ast.Expr):
+                    if not isinstance(a.value, ast.Constant):
+                        ev(a.value, bind)
+                else:
+                    raise Unknown(f"`{n.text()[:60]}`")
+            except _PyRaise as pr:
+                hs = [s for s, l in n.succs if l == "exc" and s.kind == "handler" and isinstance(s.ast, ast.ExceptHandler)]
+                h = next((s for s in hs if covers(s.ast, pr.name)), None)  # type: ignore[arg-type]
+                if h is None:
+                    return ("raise", pr.name)
+                n = h
+                continue
+            except Unknown as e:
+                raise AnalysisError(f"{name}: on the sample size line {line!r} the step `{n.text()[:60]}` is outside the evaluable subset ({e})")
+            if len(normal) != 1:
+                raise AnalysisError(f"{name}: no single successor of `{n.text()[:60]}`")
+            n = normal[0]
+        raise AnalysisError(f"{name}: the run on the sample line {line!r} does not end")
+
+    def _call(self, callee: ast.AST, args: list[t.Any], is_method: bool, line: bytes, depth: int, reads: list[int]) -> t.Any:
+        a = callee.args  # type: ignore[attr-defined]
+        names = [p.arg for p in a.posonlyargs + a.args]
+        if is_method:
+            names = names[1:]
+        if a.vararg or a.kwarg or a.kwonlyargs or len(names) != len(args) or any(isinstance(x, (ast.Yield, ast.YieldFrom)) for x in ast.walk(callee)):
+            raise Unknown(f"call of {getattr(callee, 'name', '?')} with {len(args)} argument(s)")
+        how, val = self.run(callee, dict(zip(names, args)), line, depth + 1, reads)
+        if how == "raise":
+            raise _PyRaise(val)
+        return val
